@@ -49,6 +49,7 @@ def decorate(rng, p):
             if h["kind"] in ("exec", "query", "sudo"):
                 h["sv_attrs"] = rng.sample(["serde(alias = \"al1\")", "serde(alias = \"al2\")", "doc = \"forwarded\"", "cfg_attr(all(), allow(dead_code))",
                                             "schemars(description = \"d\")"], rng.choice([0, 1, 2, 3, 4]))
+                h["sv_attrs_above"] = rng.choice([0, 0, 1, 2])
             if part["id"] == "c" and rng.random() < 0.4:
                 h["body_prefix"] = rng.sample(BODY_ITEMS, rng.choice([1, 2]))
             for a in h["args"]:
